@@ -629,7 +629,8 @@ class LLMRails:
             if isinstance(state, dict) and state.get("version", "1.0") == "2.x":
                 state = json_to_state(state["state"])
 
-            if options is None:
+            # (an empty options dict is the same as no options)
+            if options is None or (isinstance(options, dict) and not options):
                 options = GenerationOptions()
 
         # We allow options to be specified both as a dict and as an object.
